@@ -149,6 +149,7 @@ class DPDataLoader(DataLoader):
         drop_last: bool = False,
         generator=None,
         distributed: bool = False,
+        steps: Optional[int] = None,
         **kwargs,
     ):
         """
@@ -170,6 +171,7 @@ class DPDataLoader(DataLoader):
             distributed: set ``True`` if you'll be using DPDataLoader in a DDP environment
                 Selects between ``DistributedUniformWithReplacementSampler`` and
                 ``UniformWithReplacementSampler`` sampler implementations
+            steps: number of batches per epoch. Defaults to ``int(1 / sample_rate)``
         """
 
         self.sample_rate = sample_rate
@@ -180,12 +182,14 @@ class DPDataLoader(DataLoader):
                 total_size=len(dataset),  # type: ignore[assignment, arg-type]
                 sample_rate=sample_rate,
                 generator=generator,
+                steps=steps,
             )
         else:
             batch_sampler = UniformWithReplacementSampler(
                 num_samples=len(dataset),  # type: ignore[assignment, arg-type]
                 sample_rate=sample_rate,
                 generator=generator,
+                steps=steps,
             )
         sample_empty_shapes = [(0, *shape_safe(x)) for x in dataset[0]]
         dtypes = [dtype_safe(x) for x in dataset[0]]
@@ -239,6 +243,7 @@ class DPDataLoader(DataLoader):
         return cls(
             dataset=data_loader.dataset,
             sample_rate=1 / len(data_loader),
+            steps=len(data_loader),
             num_workers=data_loader.num_workers,
             collate_fn=data_loader.collate_fn,
             pin_memory=data_loader.pin_memory,
